@@ -11,11 +11,12 @@ import (
 func init() {
 	Registry["C39"] = RuleDef{Module: "rueidisaside", Run: runC39,
 		Technique:   "guard rule on every value returned by Get (placeholder test on the returned value's own path), must-pass rules for lock release on the failure arms, def-use rules tying lock value, setkey and delkey arguments to one client id, ordering rule (waiter registered before the read), lock-set rule for the waiter table",
-		Explanation: "Decides client-side necessary conditions: (R39a) every value Get returns with a possibly-nil error is the empty string or a value that was tested not to start with the lock placeholder prefix on that very path; (R39b) once the lock was taken, every path on which the loader or the conditional store failed executes the delete-if-mine script for the same key and client id, and the conditional store and the lock value use the id returned by keepalive; (R39c) when the lock holder's liveness key is gone the stale lock is released with the delete-if-equal script for (key, observed placeholder) and the read is retried; (R39d) in every retry round the waiter channel for the key is registered before the cached read is issued, the waiter for the holder's id before its liveness read, and Get then waits on both channels and the context; (R39e) waiter channels are closed only under the client's mutex and removed from the table in the same critical section (closed once); keepalive publishes a new client id only while holding the mutex and only when none is set; (R39f) no script of the package is built retryable with a non-idempotent command or read-only with a write.",
+		Explanation: "Decides client-side necessary conditions: (R39a) every value Get returns with a possibly-nil error is the empty string or a value that was tested not to start with the lock placeholder prefix on that very path; (R39b) once the lock was taken, every path on which the loader or the conditional store failed executes the delete-if-mine script for the same key and client id, and the conditional store and the lock value use the id returned by keepalive; (R39c) when the lock holder's liveness key is gone the stale lock is released with the delete-if-equal script for (key, observed placeholder) and the read is retried; (R39d) in every retry round the waiter channel for the key is registered before the cached read is issued, the waiter for the holder's id before its liveness read, and Get then waits on both channels and the context; (R39e) waiter channels are closed only under the client's mutex and removed from the table in the same critical section (closed once); keepalive publishes a new client id only while holding the mutex and only when none is set; (R39g) keepalive returns the client's published id (read from c.id or stored into it on that path), the only id whose liveness key is refreshed; (R39f) no script of the package is built retryable with a non-idempotent command or read-only with a write.",
 		NotDecided:  "that the loader runs once across clients (server-side SET NX and invalidation delivery), liveness-key expiry timing, the scripts' text."}
 }
 
 func runC39(r *Report) {
+	publishedIdRule(r)
 	A := "rueidis/rueidisaside."
 	r.Anchor("R39f", "cache-aside scripts", scriptConstructorRule(r, "R39f", "rueidis/rueidisaside", "") >= 3)
 	fn := r.FnAnchor("R39a", A+"(*Client).Get")
@@ -405,4 +406,56 @@ func builderKeyIs(cmd ssa.Value, k ssa.Value) bool {
 		v = c.Call.Args[0]
 	}
 	return false
+}
+
+// publishedIdRule (R39g): the id keepalive returns on success is the client's published id - the
+// one the refresher keeps alive: either the value read from c.id, or the fresh id on a path that
+// stored it into c.id. A caller that locks a key with an unpublished id holds a lock whose
+// liveness key is never refreshed; other clients take the live holder for dead.
+func publishedIdRule(r *Report) {
+	fn := r.FnAnchor("R39g", "rueidis/rueidisaside.(*Client).keepalive")
+	if fn == nil {
+		return
+	}
+	ok := true
+	why := ""
+	nSucc := 0
+	complete := EnumBlockPaths(fn, 2000, func(path []*ssa.BasicBlock) {
+		ret := path[len(path)-1].Instrs[len(path[len(path)-1].Instrs)-1].(*ssa.Return)
+		rv := RetVals(ret)
+		if len(rv) != 2 {
+			return
+		}
+		id := ResolveOnPath(rv[0], path)
+		// paths on which the registration request failed return its error: not a success
+		failed := false
+		for i := 0; i+1 < len(path); i++ {
+			if iff, isif := path[i].Instrs[len(path[i].Instrs)-1].(*ssa.If); isif {
+				x, op, y, cok := CmpGuard(normGuard(Guard{iff.Cond, path[i+1] == path[i].Succs[0], path[i]}))
+				if cok && op == token.NEQ && IsNilConst(y) && shortType(x.Type()) == "error" {
+					failed = true
+				}
+			}
+		}
+		if failed {
+			return
+		}
+		nSucc++
+		if u, isu := id.(*ssa.UnOp); isu && u.Op == token.MUL {
+			if _, f, _, isf := FieldRef(u.X); isf && f == "id" {
+				return // the published id
+			}
+		}
+		for _, b := range path {
+			for _, in := range b.Instrs {
+				if st, isst := in.(*ssa.Store); isst {
+					if _, f, _, isf := FieldRef(st.Addr); isf && f == "id" && st.Val == id {
+						return // published on this path
+					}
+				}
+			}
+		}
+		ok, why = false, "a successful path returns "+Desc(id)+", which is neither read from c.id nor stored into it on that path"
+	})
+	r.Ob("R39g", fn, "returned-id-is-the-published-id", fn.Pos(), ok && complete && nSucc >= 2, "keepalive returns the id that is (or has just been) published in c.id, the only one the refresher keeps alive; "+why)
 }
